@@ -6,6 +6,7 @@ package c12
 import (
 	"bytes"
 	"fmt"
+	"sort"
 )
 
 const none int8 = -2
@@ -16,30 +17,34 @@ type mon struct {
 	lastPCv vid
 	props   [][]uint16 // per round: (val<<4 | vr+1) of proposals received from / sent as that round's proposer
 	pvRecv  [][]uint8  // [round][val+1] bitmask of senders whose prevote was received (own included)
+	pcRecv  [][]uint8  // the same for precommits; props / pvRecv / pcRecv together are the record of what was delivered (re-delivery alphabet)
 }
 
 func newMon(c *cfg) *mon {
 	nr := (c.H+1)*hStride + 1
-	m := &mon{pv: make([]int8, nr), pc: make([]int8, nr), lastPCr: -1, lastPCv: nilV, props: make([][]uint16, nr), pvRecv: make([][]uint8, nr)}
+	m := &mon{pv: make([]int8, nr), pc: make([]int8, nr), lastPCr: -1, lastPCv: nilV, props: make([][]uint16, nr), pvRecv: make([][]uint8, nr), pcRecv: make([][]uint8, nr)}
 	for i := range m.pv {
 		m.pv[i], m.pc[i] = none, none
 		m.pvRecv[i] = make([]uint8, c.n+2)
+		m.pcRecv[i] = make([]uint8, c.n+2)
 	}
 	return m
 }
 
 func (m *mon) clone() *mon {
 	x := &mon{pv: append([]int8(nil), m.pv...), pc: append([]int8(nil), m.pc...), lastPCr: m.lastPCr, lastPCv: m.lastPCv,
-		props: make([][]uint16, len(m.props)), pvRecv: make([][]uint8, len(m.pvRecv))}
+		props: make([][]uint16, len(m.props)), pvRecv: make([][]uint8, len(m.pvRecv)), pcRecv: make([][]uint8, len(m.pcRecv))}
 	for i := range m.props {
 		x.props[i] = append([]uint16(nil), m.props[i]...)
 		x.pvRecv[i] = append([]uint8(nil), m.pvRecv[i]...)
+		x.pcRecv[i] = append([]uint8(nil), m.pcRecv[i]...)
 	}
 	return x
 }
 
 func (m *mon) dump(w *bytes.Buffer) {
 	fmt.Fprintf(w, "|mon %v %v %d %d %v %v", m.pv, m.pc, m.lastPCr, m.lastPCv, m.props, m.pvRecv)
+	fmt.Fprintf(w, " %v", m.pcRecv)
 }
 
 // receive records a delivered (or own) message.
@@ -61,8 +66,43 @@ func (m *mon) receive(c *cfg, x msg) {
 		}
 		m.props[r] = append(m.props[r], e)
 	case kPrevote:
-		m.pvRecv[r][x.val+1] |= 1 << uint(x.sender)
+		if x.val >= nilV {
+			m.pvRecv[r][x.val+1] |= 1 << uint(x.sender)
+		}
+	case kPrecommit:
+		if x.val >= nilV {
+			m.pcRecv[r][x.val+1] |= 1 << uint(x.sender)
+		}
 	}
+}
+
+// delivered lists (packed, ascending) every message this validator has received so far - from the network, from the
+// Byzantine validator, or as its own broadcast (own echo) -: the alphabet of the re-delivery deviation R. Forged
+// proposals (not from the round's proposer) are not recorded: they are refused on every delivery (monitored by
+// "validity forged-proposal-processed") and the Byzantine validator can resend them through deviation B anyway.
+//
+// Only messages of rounds >= from (the first round of the receiver's current height) are listed: once a validator has
+// left a height its messages are dead for it (assumption of part A2, checked at the VoteCounter level by C3), and
+// leaveHeight forgets the precommit record of the height left so that validators that decided a height from
+// different precommit sets still merge.
+func (m *mon) delivered(c *cfg, from int) []uint32 {
+	var out []uint32
+	for r := from; r < len(m.props); r++ {
+		for _, p := range m.props[r] {
+			out = append(out, msg{kind: kProp, round: int8(r), sender: int8(c.proposer(r)), val: vid(p >> 4), vr: int8(p&15) - 1}.pack())
+		}
+		for k, rec := range [2][]uint8{m.pvRecv[r], m.pcRecv[r]} {
+			for v, mask := range rec {
+				for s := 0; s < c.n; s++ {
+					if mask&(1<<uint(s)) != 0 {
+						out = append(out, msg{kind: uint8(kPrevote + k), round: int8(r), sender: int8(s), val: vid(v) - 1, vr: -1}.pack())
+					}
+				}
+			}
+		}
+	}
+	sort.Slice(out, func(i, j int) bool { return out[i] < out[j] })
+	return out
 }
 
 // power of a set of senders AT HEIGHT h (the height of the messages that are being weighed).
@@ -74,6 +114,12 @@ func (m *mon) power(c *cfg, mask uint8, h int) uint {
 		}
 	}
 	return p
+}
+
+func (m *mon) leaveHeight(h int) {
+	for r := 0; r < (h+1)*hStride && r < len(m.pcRecv); r++ {
+		clear(m.pcRecv[r])
+	}
 }
 
 func (m *mon) onPrevote(c *cfg, x msg) (string, string) {
@@ -121,6 +167,7 @@ func (m *mon) onPrecommit(c *cfg, x msg) (string, string) {
 		return "equivocation precommit", fmt.Sprintf("round %d: precommitted V%d then V%d", r, m.pc[r], x.val)
 	}
 	m.pc[r] = x.val
+	m.receive(c, x) // own echo
 	if x.val >= 0 {
 		m.lastPCr, m.lastPCv = x.round, x.val
 	}
